@@ -236,6 +236,9 @@ func symDecrypt(params *ECIESParams, key, ct []byte) (m []byte, err error) {
 		return
 	}
 
+	if len(ct) < params.BlockSize {
+		return nil, ErrInvalidMessage
+	}
 	ctr := cipher.NewCTR(c, ct[:params.BlockSize])
 
 	m = make([]byte, len(ct)-params.BlockSize)
